@@ -153,6 +153,41 @@ impl ElfLinker {
     /// at. Loads the Elf, all it's dependencies (DT_NEEDED), and then handles
     /// the supported relocations.
     pub fn load_elf(&mut self, filename: &Path, base_address: u64) -> Result<(), Error> {
+        let already_loaded: Vec<String> = self.loaded.keys().cloned().collect();
+
+        self.load_elf_and_dependencies(filename, base_address)?;
+
+        // Relocations are processed once every object has been loaded, so a
+        // relocation may name a symbol of an object that was loaded later.
+        if self.do_relocations {
+            let newly_loaded: Vec<String> = self
+                .loaded
+                .keys()
+                .filter(|loaded| {
+                    !already_loaded.contains(loaded)
+                        || filename.file_name().and_then(|f| f.to_str()) == Some(loaded.as_str())
+                })
+                .cloned()
+                .collect();
+            for filename in newly_loaded {
+                match self.loaded[&filename].elf().header.e_machine {
+                    goblin::elf::header::EM_386 => self.relocations_x86(&filename)?,
+                    goblin::elf::header::EM_MIPS => self.relocations_mips(&filename)?,
+                    _ => return Err(Error::ElfLinkerRelocationsUnsupported),
+                }
+            }
+        }
+
+        Ok(())
+    }
+
+    /// Loads the Elf and all it's dependencies (DT_NEEDED) without handling
+    /// relocations.
+    fn load_elf_and_dependencies(
+        &mut self,
+        filename: &Path,
+        base_address: u64,
+    ) -> Result<(), Error> {
         let path = self
             .ld_paths
             .as_ref()
@@ -205,7 +240,7 @@ impl ElfLinker {
                 .interpreter
                 .map(|s| s.to_string());
             if let Some(interpreter_filename) = interpreter_filename {
-                self.load_elf(Path::new(&interpreter_filename), DEFAULT_LIB_BASE)?;
+                self.load_elf_and_dependencies(Path::new(&interpreter_filename), DEFAULT_LIB_BASE)?;
             }
         } else {
             // Ensure all shared objects we rely on are loaded
@@ -213,16 +248,8 @@ impl ElfLinker {
                 if !self.loaded.contains_key(&so_name) {
                     self.next_lib_address += LIB_BASE_STEP;
                     let next_lib_address = self.next_lib_address;
-                    self.load_elf(Path::new(&so_name), next_lib_address)?;
+                    self.load_elf_and_dependencies(Path::new(&so_name), next_lib_address)?;
                 }
-            }
-        }
-
-        if self.do_relocations {
-            match self.loaded[&filename].elf().header.e_machine {
-                goblin::elf::header::EM_386 => self.relocations_x86(&filename)?,
-                goblin::elf::header::EM_MIPS => self.relocations_mips(&filename)?,
-                _ => return Err(Error::ElfLinkerRelocationsUnsupported),
             }
         }
 
